@@ -257,6 +257,24 @@ Definition spec_obs (ntargets : nat) (o : obs) : bool :=
                        | Ok b => (b <? N.of_nat ntargets)%N && negb (Qle_bool (nth (N.to_nat b) wq 0%Q) 0)
                        | _ => false end) (o_rnd o).
 
+(** "fixed weights are honoured as given", on the input and the implementation's observables: when the
+    sequence consists of adds only and every weight of it is finite and not negative, the fixed weights
+    of the route's targets are the given ones, bit for bit and in the order of the adds (what a `route
+    weight` or `route del` command makes of them is left to the correspondence with the model) *)
+Fixpoint adds_only (cmds : list cmd) : option (list Z) :=
+  match cmds with
+  | [] => Some []
+  | CAdd w :: rest => match adds_only rest with Some ws => Some (w :: ws) | None => None end
+  | _ => None
+  end.
+Definition given_weight_ok (b : Z) : bool :=
+  let x := f64_of_bits b in f64_finite x && Qle_bool 0 (f64_to_Q x).
+Definition spec_given (cmds : list cmd) (o : obs) : bool :=
+  match adds_only cmds with
+  | Some ws => if forallb given_weight_ok ws then list_eqb bits_eqb (o_fixed o) ws else true
+  | None => true
+  end.
+
 (** inputs outside the range in which binary64 behaves like arithmetic: a weight in a
     command that is NaN, infinite, or positive and outside [1e-300, 1e300] *)
 Definition edge_weight (b : Z) : bool :=
@@ -447,7 +465,7 @@ Definition check_case (c : case) : N :=
                             | None => true
                             end in
               let same := same_weights && same_counts && same_ring && same_first && same_rnd && same_q in
-              let spec := spec_obs n o in
+              let spec := spec_obs n o && spec_given cmds o in
               (* region 3 (finding F-C04-3), syntactic on the input: some weight of the command sequence is
                  positive and outside [1e-300, 1e300] (or not finite) *)
               verdict same spec (if edge then Some 3%N else None) (negb dyn_only && Nat.ltb 1 n)
